@@ -94,4 +94,7 @@ theorem unbe_slice_two_lt (img : List Nat) (off : Nat) (h : isBytes img) : unbe 
     exact unbe_two_lt a b ha hb'
   | a :: b :: c :: rest => rw [hs] at hl; simp at hl
 
+theorem rdOk_of_le (img : List Nat) (off n : Nat) (h : off + n ≤ img.length) : rdOk img off n = true := by
+  unfold rdOk; exact decide_eq_true h
+
 end LLTD
